@@ -523,6 +523,7 @@ class Gen:
 
     def dexpr(self, env, depth, kinds=None):
         node = self.leaf(env)
+        self.max_meas = max(getattr(self, 'max_meas', 0), len(node.meas))
         for i in range(depth):
             nxt = None
             node = self.mat(node)
@@ -533,17 +534,18 @@ class Gen:
             if nxt is None:
                 break
             node = nxt
+            self.max_meas = max(getattr(self, 'max_meas', 0), len(node.meas))
         return node
 
     # ------------------------------------------------------------------ a whole case
     def case(self, depth=None, kinds=None):
         fam, env = self.make_inputs()
         d = depth if depth is not None else self.r.choice([1, 1, 2, 2, 3, 4])
-        self.stmts, self.ntemp = [], 0
+        self.stmts, self.ntemp, self.max_meas = [], 0, 0
         node = self.dexpr(env, d, kinds)
         vtl = 'DS_r <- %s;' % node.vtl
         script = ' '.join(self.stmts + [vtl])
-        return {'family': fam, 'env': env, 'vtl': script, 'sx': node.sx, 'ops': list(node.ops),
+        return {'family': fam, 'env': env, 'vtl': script, 'sx': node.sx, 'ops': list(node.ops), 'max_meas': self.max_meas,
                 'ids': node.ids, 'meas': node.meas, 'flat': self.flat, 'depth': len(node.ops)}
 
 
